@@ -11,7 +11,20 @@
 //! (which task is polled first decides whether the writer's generation is
 //! older or younger than the GC floor) or is frozen during the race (every
 //! generation minted in the race equals the floor).
+//!
+//! Where the in-flight registration is created or released relative to the
+//! backend call it protects, and which scenario schedules the collector
+//! through that window: put — registered before the payload put, released
+//! when the call returns (every writer scenario; post-effect gate of both
+//! puts); multipart — registered at `put_multipart`, held by the uploader;
+//! the generation only becomes visible at `complete()`'s materialisation
+//! (scenarios multipart, plus the repeated / retried `complete()` of the
+//! `prior` dimension); copy / rename — registered inside `copy_payload`
+//! before the backend copy, once per attempt of its retry loop, handed to the
+//! caller and held across the pointer switch (scenarios copy / rename, plus
+//! `stale_source` for the second attempt of the loop).
 
+use object_store::ObjectStoreExt;
 use serde::{Deserialize, Serialize};
 use serde_json::{Value, json};
 use std::cell::RefCell;
@@ -44,6 +57,27 @@ struct Scenario {
     /// Writers go through a second wrapper instance (no shared in-flight
     /// registry) and are first polled only after the collector has started.
     second_instance: bool,
+    /// The writers' instance resolved every key before another instance
+    /// overwrote it: its cached pointers are stale, so a copy first hits a
+    /// missing payload, re-resolves and copies into a SECOND fresh generation
+    /// (the retry loop of `copy_payload`) while the collector runs.
+    #[serde(default)]
+    stale_source: bool,
+    /// What happened to the racing upload's `complete()` before the race.
+    #[serde(default)]
+    prior: Prior,
+}
+
+#[derive(Clone, Copy, Debug, Default, PartialEq, Eq, Serialize, Deserialize)]
+enum Prior {
+    /// `complete()` is called for the first time in the race
+    #[default]
+    None,
+    /// a first `complete()` committed; the race runs the repeated call
+    Completed,
+    /// a first `complete()` was abandoned right after it materialised the
+    /// generation (answer in flight, pointer not switched); the race runs the retry
+    DroppedAfterMaterialize,
 }
 
 impl Scenario {
@@ -55,7 +89,12 @@ impl Scenario {
             self.writers.iter().map(|o| o.label()).collect::<Vec<_>>().join(" || "),
             if self.frozen_clock { "frozen" } else { "advancing" },
             if self.second_instance { "second-instance-after-gc-start" } else { "same-instance" }
-        )
+        ) + if self.stale_source { " writers-cache=stale-pointers" } else { "" }
+            + match self.prior {
+                Prior::None => "",
+                Prior::Completed => " complete()=repeated-after-commit",
+                Prior::DroppedAfterMaterialize => " complete()=retry-after-drop-behind-materialisation",
+            }
     }
     fn shape(&self) -> String {
         format!(
@@ -65,7 +104,12 @@ impl Scenario {
             self.writers.iter().map(|o| o.kind()).collect::<Vec<_>>().join("+"),
             if self.frozen_clock { "frozen" } else { "advancing" },
             if self.second_instance { "second-instance" } else { "same-instance" }
-        )
+        ) + if self.stale_source { ":stale-source" } else { "" }
+            + match self.prior {
+                Prior::None => "",
+                Prior::Completed => ":recomplete",
+                Prior::DroppedAfterMaterialize => ":retry-after-drop",
+            }
     }
 }
 
@@ -297,16 +341,66 @@ fn run_one(sc: &Scenario, start: &(Content, Model), ch: &mut Chooser, keep_label
     // Second instance: the registry is not shared, so the upload is begun
     // after the collector captured its floor (see below).
     clock(5000);
+    // the model state the race starts from (setup below may commit)
+    let model_start: RefCell<Model> = RefCell::new(start.1.clone());
+    if sc.stale_source {
+        // the writers' instance resolves every key ...
+        util::block_on(async {
+            for k in 0..KEYS.len() as u8 {
+                if let Ok(r) = wr_inst.os().get(&key_path(k)).await {
+                    let _ = r.bytes().await;
+                }
+            }
+        });
+        // ... then another instance overwrites every present key: the
+        // cached pointers name payloads that are gone
+        let other = W::open(kind, store.clone());
+        for k in 0..KEYS.len() as u8 {
+            if start.1[k as usize].is_some() {
+                let op = Op::Put { k, v: 8 + k };
+                util::block_on(run_op(&other, &op)).expect("setup overwrite");
+                let next = model_step(&model_start.borrow(), &op).0;
+                *model_start.borrow_mut() = next;
+            }
+        }
+    }
     let begin_uploads = || -> Vec<Option<Box<dyn object_store::MultipartUpload>>> {
         sc.writers
             .iter()
             .map(|op| match op {
-                Op::Multipart { k, v } => Some(util::block_on(multipart_begin(wr_inst, *k, *v)).expect("begin upload")),
+                Op::Multipart { k, v } => {
+                    let mut up = util::block_on(multipart_begin(wr_inst, *k, *v)).expect("begin upload");
+                    match sc.prior {
+                        Prior::None => {}
+                        Prior::Completed => {
+                            util::block_on(up.complete()).expect("first complete");
+                            let next = model_step(&model_start.borrow(), op).0;
+                            *model_start.borrow_mut() = next;
+                        }
+                        Prior::DroppedAfterMaterialize => {
+                            // poll with every backend call suspending, until the
+                            // materialisation has landed; then abandon the call
+                            // (the gate is off whenever uploads are begun)
+                            let from = ctl.journal_len();
+                            ctl.set_post_gate(true);
+                            ctl.set_gate(true);
+                            let (r, _) = drive_until(up.complete(), |_| ctl.journal_len() > from);
+                            ctl.set_gate(false);
+                            if r.is_some() {
+                                vcore::report::machinery("STEP: the first complete() finished before it could be abandoned");
+                            }
+                        }
+                    }
+                    Some(up)
+                }
                 _ => None,
             })
             .collect()
     };
     let mut uploads = if sc.second_instance { Vec::new() } else { begin_uploads() };
+    // what is in the store, and how long the journal is, when the race starts
+    let race_content = ctlstore::snapshot(&inner);
+    let race_journal_from = ctl.journal_len();
     if sc.frozen_clock {
         anda_db_utils::verif::set_clock(Some((6000, 0)));
     } else {
@@ -391,8 +485,8 @@ fn run_one(sc: &Scenario, start: &(Content, Model), ch: &mut Chooser, keep_label
     let floor = floor.into_inner().expect("gc polled");
 
     // --- walk the journal: what did the collector delete, what did commits reference
-    let journal = ctl.journal();
-    let mut content = start.0.clone();
+    let journal = ctl.journal_from(race_journal_from);
+    let mut content = race_content;
     let mut dangling_reported = false;
     for e in &journal {
         if e.task == 0 {
@@ -458,7 +552,7 @@ fn run_one(sc: &Scenario, start: &(Content, Model), ch: &mut Chooser, keep_label
         lives.push(("writers' instance", s));
     }
     for (who, w) in &lives {
-        let v = util::block_on(observe_all(w.os()));
+        let v = read_live(sc, who, w, &cold);
         if v != cold {
             ex.problems.push((
                 "live-instance-disagrees".into(),
@@ -471,7 +565,7 @@ fn run_one(sc: &Scenario, start: &(Content, Model), ch: &mut Chooser, keep_label
         let wbefore: Vec<BTreeSet<usize>> = (0..sc.writers.len())
             .map(|i| before[i + 1].iter().filter(|j| **j >= 1).map(|j| j - 1).collect())
             .collect();
-        let acc = acceptable(&start.1, &sc.writers, &wbefore);
+        let acc = acceptable(&model_start.borrow(), &sc.writers, &wbefore);
         let oks: Vec<bool> = results[1..].iter().map(|r| r.is_ok()).collect();
         if !acc.iter().any(|(m, o)| *m == fin && *o == oks) {
             ex.problems.push((
@@ -506,7 +600,7 @@ fn run_one(sc: &Scenario, start: &(Content, Model), ch: &mut Chooser, keep_label
         let w_cold = W::open(kind, store.clone());
         again.push(("cold instance", &w_cold));
         for (who, w) in again {
-            let v = util::block_on(observe_all(w.os()));
+            let v = read_live(sc, who, w, &cold);
             if v != cold {
                 ex.problems.push((
                     "read-changed-by-quiescent-gc".into(),
@@ -516,6 +610,35 @@ fn run_one(sc: &Scenario, start: &(Content, Model), ch: &mut Chooser, keep_label
         }
     }
     ex
+}
+
+/// Reads every key through a long-lived instance. An instance whose cache was
+/// made stale on purpose keeps answering listings and heads of keys the race
+/// did not touch from that cache (documented read-through cache), so only its
+/// full gets are compared: they must heal and deliver the committed bytes.
+fn read_live(sc: &Scenario, who: &str, w: &W, cold: &View) -> View {
+    let stale = sc.stale_source && (who == "writers' instance" || (who == "collector's instance" && !sc.second_instance));
+    if !stale {
+        return util::block_on(observe_all(w.os()));
+    }
+    let keys = (0..KEYS.len() as u8)
+        .map(|k| {
+            util::block_on(async {
+                match w.os().get(&key_path(k)).await {
+                    Ok(r) => match r.bytes().await {
+                        Ok(b) => Obs::Value(b.to_vec()),
+                        Err(e) => Obs::Broken(format!("get: body unreadable: {e}")),
+                    },
+                    Err(object_store::Error::NotFound { .. }) => Obs::Absent,
+                    Err(e) => Obs::Broken(format!("get: {e}")),
+                }
+            })
+        })
+        .collect();
+    View {
+        keys,
+        anomalies: cold.anomalies.clone(),
+    }
 }
 
 fn judge_broken(v: &View) -> Vec<(String, String)> {
@@ -566,16 +689,40 @@ fn scenarios(thorough: bool, b1: u32, b2: u32) -> Vec<(Scenario, u32)> {
             for frozen_clock in [false, true] {
                 for second_instance in [false, true] {
                     for w in writer_ops(0) {
-                        singles.push((
-                            Scenario {
-                                kind,
-                                start,
-                                writers: vec![w],
-                                frozen_clock,
-                                second_instance,
-                            },
-                            b1,
-                        ));
+                        let base = Scenario {
+                            kind,
+                            start,
+                            writers: vec![w.clone()],
+                            frozen_clock,
+                            second_instance,
+                            stale_source: false,
+                            prior: Prior::None,
+                        };
+                        singles.push((base.clone(), b1));
+                        // Both extra dimensions are about the in-flight
+                        // registry. It only decides for a generation older
+                        // than the floor on the collector's own instance, so
+                        // the quick tier takes them there (advancing clock,
+                        // same instance); the thorough tier everywhere.
+                        if !thorough && (frozen_clock || second_instance) {
+                            continue;
+                        }
+                        match w {
+                            // the source pointer only matters to copies
+                            Op::Copy { .. } | Op::Rename { .. } => singles.push((
+                                Scenario {
+                                    stale_source: true,
+                                    ..base.clone()
+                                },
+                                b1,
+                            )),
+                            Op::Multipart { .. } => {
+                                for prior in [Prior::Completed, Prior::DroppedAfterMaterialize] {
+                                    singles.push((Scenario { prior, ..base.clone() }, b1));
+                                }
+                            }
+                            _ => {}
+                        }
                     }
                 }
             }
@@ -607,6 +754,8 @@ fn scenarios(thorough: bool, b1: u32, b2: u32) -> Vec<(Scenario, u32)> {
                                 writers: vec![a.clone(), b.clone()],
                                 frozen_clock,
                                 second_instance: false,
+                                stale_source: false,
+                                prior: Prior::None,
                             },
                             b2,
                         ));
@@ -910,6 +1059,8 @@ fn main() {
         "scenario = wrapper x start state with garbage {both keys, b absent, legacy a} x clock {advancing, frozen during the race} x \
          writers {one of put/multipart-complete/copy/delete/rename on either key; or two of them (same and different keys)} x \
          {writers through the collector's instance; writers through a second instance first polled after the collector captured its floor}; \
+         one-writer scenarios additionally: copy / rename with the writers' instance holding stale cached pointers (another instance overwrote every key after it resolved them: the first backend copy misses, copy_payload re-resolves and copies into a second fresh generation under a second registration), \
+         multipart complete as the REPEATED call on an uploader whose first complete() committed, and as the RETRY of a complete() that was abandoned right behind the materialisation of its generation (payload on the backend, pointer not switched); \
          per scenario every schedule of collect_garbage || writers up to the preemption bound, with two scheduling points per inner-store call (before its effect; after the effect, before the result is delivered) \
          (one evaluation = one execution on the real code, judged by: no collector delete of a referenced payload, after every single inner-store mutation every commit point's payload exists (= every crash point of the interleaved run), \
          live and cold instances read the same complete values, final state explained by an order of the operations' commit steps consistent with return order, \
